@@ -455,6 +455,7 @@ def run(ctx):
     two_operations(ctx)
     mixed_style_port(ctx)
     header_entries_from_plugins(ctx)
+    encoded_arrays_next_to_string_replies(ctx)
     lookup_walk_two_preemptions(ctx)
     sys.setswitchinterval(old_switch)
     ctx.sample({"style": "encoded", "scenario": "two-calls", "preempt_after_event": 1234})
@@ -596,6 +597,46 @@ def header_entries_from_plugins(ctx):
             if [len(x) for x in got] != [1, 1] or got[0] == got[1]:
                 ctx.fail("a request carries header entries that were added for another request", meta, got,
                          "one MessageID per request, each its own")
+
+
+def encoded_arrays_next_to_string_replies(ctx):
+    """Two kinds of call that make suds name a generated class 'string' - decoding a reply that holds an xsd:string
+    value, and sending an rpc/encoded array of xsd:string given as a plain list - do not disturb one another, one
+    after the other in either order or both in flight."""
+    from harness.props import c09
+    arr = ('<xsd:import namespace="http://schemas.xmlsoap.org/soap/encoding/"/><xsd:complexType name="Strings">'
+           '<xsd:complexContent><xsd:restriction base="soapenc:Array"><xsd:attribute ref="soapenc:arrayType" '
+           'wsdl:arrayType="xsd:string[]"/></xsd:restriction></xsd:complexContent></xsd:complexType>')
+    w_enc = wsdlkit.wsdl_doc(arr, style="rpc", use="encoded", in_parts=[("a", "type", "x:Strings")])
+    tr = wsdlkit.RecordingTransport(reply=None)
+    enc = wsdlkit.client(w_enc, transport=tr)
+    doc = wsdlkit.client(c09.make_wsdl("wrapped"))
+    reply = c09.body_bytes("normal", "wrapped")
+
+    def call_enc():
+        enc.service.f(["x", "y"])
+        return "sent"
+
+    def call_doc():
+        return str(doc.service.f("q", __inject={"reply": reply}))
+    for order in ((call_enc, call_doc, call_enc), (call_doc, call_enc, call_doc)):
+        meta = {"scenario": "encoded-array+string-reply/sequential", "first": order[0].__name__}
+        ctx.case(common.canon(meta), True)
+        try:
+            got = [fn() for fn in order]
+        except Exception as e:
+            got = "%s: %s" % (type(e).__name__, e)
+        want = [{"call_enc": "sent", "call_doc": "hello"}[fn.__name__] for fn in order]
+        if got != want:
+            ctx.fail("a call failed or changed because of another call made in the same process", meta, got, want)
+    res, total, errs = run_schedule([call_enc, call_doc], {})
+    for k in sorted(set(int(1 + i * (total / 2 - 1) / 8.0) for i in range(9))):
+        res, nev, errs = run_schedule([call_enc, call_doc], {k: 1})
+        meta = {"scenario": "encoded-array+string-reply", "preempt_after_event": k}
+        ctx.case(common.canon(meta), True)
+        ctx.dist["schedule:encoded-array+string-reply"] += 1
+        if errs or [r if r is None else r[0] for r in res] != ["ok", "ok"]:
+            ctx.fail("a call failed because another was in progress", meta, [errs, res], "both calls finish")
 
 
 def mixed_style_wsdl():
